@@ -70,6 +70,8 @@ def kind(n):
 
 def where(n):
     sp = n.get("sp", "") if isinstance(n, dict) else ""
+    if isinstance(n, dict) and n.get("cs") and ("/.cargo/registry/" in sp or "/rustc/" in sp or "/library/" in sp):
+        sp = n["cs"]  # inside a macro from another crate: point at the invocation
     # file:line
     parts = sp.split(":")
     return ":".join(parts[:2]) if len(parts) >= 2 else sp
